@@ -22,6 +22,7 @@ def callsBelowId (i : CellId) : Expr → Bool
   | .try_ a _ b => callsBelowId i a && callsBelowId i b
   | .tryRe a _ b => callsBelowId i a && callsBelowId i b
   | .tryFin a b => callsBelowId i a && callsBelowId i b
+  | .callK c args _ _ _ => decide (c < i) && callsBelowIdList i args
 def callsBelowIdList (i : CellId) : List Expr → Bool
   | [] => true
   | e :: es => callsBelowId i e && callsBelowIdList i es
@@ -121,6 +122,19 @@ theorem compile_below (ar : CellId → Option Nat) (params : List Val) (n : Node
     exact compile_below ar params n a _ _ hc.1
       (fun v => compile_below ar params n b _ h hc.2 (fun _ => hk v) hh)
       (fun x e => compile_below ar params n b _ h hc.2 (fun _ => hh _ _) hh)
+  | .callK c args npos kws dflt, k, h, hc, hk, hh => by
+    simp only [callsBelowId, Bool.and_eq_true, decide_eq_true_eq] at hc
+    simp only [compile]
+    split
+    · exact hh _ _
+    · refine compileArgs_below ar params n args _ h hc.2 (fun vs => ?_) hh
+      split
+      · simp only [CallsBelow]
+        refine ⟨hc.1, fun r => ?_⟩
+        cases r with
+        | ok v => exact hk v
+        | err e => exact hh _ _
+      · exact hh _ _
 theorem compileArgs_below (ar : CellId → Option Nat) (params : List Val) (n : Node) :
     ∀ (es : List Expr) (k : List Val → Prog) (h : Bool → Err → Prog), callsBelowIdList n.1 es = true →
       (∀ vs, CallsBelow idLt n (k vs)) → (∀ x e, CallsBelow idLt n (h x e)) →
